@@ -20,7 +20,7 @@ DEFAULT_PROFILE = dict(
     n_ops=(0, 2, 5, 10, 20, 40), horizon=(5, 10, 10, 20, 40),
     fault_kinds=('fail', 'shutdown', 'restore', 'wo', 'addres', 'block', 'adjust', 'rewire',
                  'offset', 'ct', 'wake', 'trywork'),
-    p_split=0.3, p_nested=0.25, p_trace=0.0, p_rq=0.0, p_fanin=0.5, callbacks=True, starve=True,
+    p_split=0.3, p_nested=0.25, p_trace=0.0, p_rq=0.0, p_decimal=0.0, p_fanin=0.5, callbacks=True, starve=True,
     fail_down_bias=0.0,
 )
 
@@ -30,7 +30,7 @@ PROFILES = {
     'c02': {},
     'c03': dict(kinds=dict(handler=2, proc=5, buffer=4, batcher=1, gates=1, path=2), p_resources=0.7,
                 n_ops=(2, 5, 10, 20, 40), n_layers=(1, 2, 2, 3), horizon=(5, 10, 10, 20)),
-    'c05': dict(kinds=dict(handler=2, proc=3, buffer=8, batcher=1, gates=0, path=1), p_batch_source=0.4,
+    'c05': dict(p_decimal=0.15, kinds=dict(handler=2, proc=3, buffer=8, batcher=1, gates=0, path=1), p_batch_source=0.4,
                 width=(2, 2, 3), n_sources=(1, 2, 2)),
     'c06': dict(kinds=dict(handler=4, proc=6, buffer=2, batcher=0, gates=1, path=1),
                 fault_kinds=('fail', 'shutdown', 'restore', 'wo', 'offset', 'ct', 'block', 'wake', 'fail', 'shutdown', 'restore', 'wo'),
@@ -42,6 +42,8 @@ PROFILES = {
                  p_fanin=1.0, p_resources=0.7, n_sources=(1, 1, 2), p_batch_source=0.0,
                  fault_kinds=('fail', 'shutdown', 'restore', 'wo', 'addres', 'block', 'block', 'wake'),
                  n_ops=(2, 5, 10, 20)),
+    'cp': dict(n_sources=(1,), n_layers=(1, 1, 2), width=(1, 1, 2), kinds=dict(handler=1, proc=6, buffer=1, batcher=0, gates=0, path=0.5),
+               p_resources=0.4, p_maintainer=1.0, n_ops=(0,), horizon=(4, 6, 8), p_split=0.0, p_batch_source=0.1, starve=False),
     'c11': dict(kinds=dict(handler=2, proc=8, buffer=2, batcher=0, gates=1, path=3), p_resources=1.0,
                 fault_kinds=('fail', 'shutdown', 'restore', 'wo', 'addres', 'addres', 'block', 'wake')),
     'c13': dict(kinds=dict(handler=3, proc=7, buffer=2, batcher=0, gates=1, path=1),
@@ -83,8 +85,27 @@ def _subset(rng, items, p_more=0.5):
     return out
 
 
+DEC_CT = (0, 0.1, 0.3, 0.334, 0.7, 1.1, 2.05)
+
+
 def gen_spec(rng, profile_name='default'):
     P = profile(profile_name)
+    decimal = rng.random() < P['p_decimal']
+    global CT, DELAY
+    saved = (CT, DELAY)
+    if decimal:
+        # non-dyadic times: only used by properties that grant a rounding tolerance (C05)
+        CT, DELAY = DEC_CT, (0, 0.1, 0.334, 1.1)
+    try:
+        spec = _gen_spec(rng, profile_name, P)
+    finally:
+        CT, DELAY = saved
+    if decimal:
+        spec['decimal'] = True
+    return spec
+
+
+def _gen_spec(rng, profile_name, P):
     devices = []
     names = set()
 
@@ -147,9 +168,10 @@ def gen_spec(rng, profile_name='default'):
             inner = rng.choice(groups)
         inner_pos = rng.randrange(nm) if inner is not None else -1
         prev = None
+        parallel = nm >= 2 and inner is None and rng.random() < P.get('p_parallel_group', 0.25)
         for m in range(nm):
             mname = f'{gname}m{m}'
-            up = [prev] if prev else []
+            up = [prev] if (prev and not parallel) else []
             if m == inner_pos:
                 d = {'k': 'path', 'n': mname, 'group': inner, 'up': up, 'in': gname}
             elif rng.random() < 0.6:
@@ -162,6 +184,10 @@ def gen_spec(rng, profile_name='default'):
             members.append(add(d))
             prev = mname
         gd = {'k': 'group', 'n': gname, 'members': members}
+        if parallel:
+            # a bank of parallel machines: every member is both an input and an output device of the group
+            gd['inputs'] = list(members)
+            gd['outputs'] = list(members)
         add(gd)
         group_defs[gname] = gd
         groups.append(gname)
@@ -284,6 +310,10 @@ def gen_spec(rng, profile_name='default'):
     spec['plan'] = plan
     spec['ops'] = gen_ops(rng, spec, P, horizon)
     spec['tiebreak'] = core.gen_tiebreak(rng)
+    if P['starve'] and rng.random() < 0.12:
+        cands = [d['n'] for d in devices if d['k'] in ('source', 'handler', 'proc', 'buffer', 'sink', 'batcher')]
+        spec['tiebreak'] = {'mode': rng.choice(('starve_lose', 'starve_win')), 'seed': rng.randrange(2 ** 32),
+                            'starve_dev': rng.choice(cands)}
     spec['id_offset'] = rng.choice((0, 0, 7, 1000, 123456))
     if rng.random() < P['p_trace']:
         spec['trace'] = True
